@@ -306,6 +306,9 @@ Proof.
     injection H as <-. constructor; [split; [reflexivity|exact Hb]|]. now apply IH.
 Qed.
 
+Lemma Forall2_len {A B} (R : A -> B -> Prop) l m : Forall2 R l m -> length l = length m.
+Proof. induction 1; cbn; congruence. Qed.
+
 Lemma head_len_uniform (ps : list part) sz :
   Forall (fun p : part => (if fst p then 32 else zlen (snd p)) = sz) ps ->
   head_len ps = zlen ps * sz.
@@ -377,7 +380,8 @@ Proof.
     { clear -Hps Hd. induction Hps as [|v p vs' ps' [Hf _] _ IH]; constructor; [congruence|exact IH]. }
     rewrite tails_static by assumption. rewrite zlen_nil, Z.add_0_r.
     rewrite (head_len_uniform ps (type_size t)).
-    + apply Forall2_length in Hps. unfold zlen. rewrite <- Hps. f_equal. lia.
+    + apply Forall2_len in Hps. apply Nat.eqb_eq in Ek.
+      f_equal. unfold zlen. f_equal. etransitivity; [symmetry; exact Hps|exact Ek].
     + clear -Hps Hd IHt Hnt. induction Hps as [|v p vs' ps' [Hf Hb] _ IH]; constructor; [|exact IH].
       destruct p as [d pb]. cbn in *. subst d. rewrite Hd. now apply (IHt v pb).
   - (* static tuple *)
@@ -388,4 +392,373 @@ Proof.
     rewrite zlen_pack_loop.
     rewrite (tails_static ps) by (eapply pack_fields_static; eauto).
     rewrite zlen_nil, Z.add_0_r. eapply fields_head_len; eauto.
+Qed.
+
+(* ------------------------------------------------------------------ *)
+(* pack = spec                                                         *)
+
+Lemma ty_valid_newtype t : ty_valid t = true -> ty_newtype t = true.
+Proof.
+  induction t using ty_ind'; cbn [ty_valid ty_newtype]; auto.
+  intros Hv. rewrite forallb_forall in *. rewrite Forall_forall in H. auto.
+Qed.
+
+Lemma pack_num_signed z :
+  - 2 ^ 255 <= z < 2 ^ 255 -> pack_num z = spec_word (if z <? 0 then z + 2 ^ 256 else z).
+Proof.
+  intros H. destruct (z <? 0) eqn:E.
+  - unfold pack_num, spec_word. do 2 f_equal. lia.
+  - apply pack_num_spec. lia.
+Qed.
+
+Lemma in_signed_bound n z :
+  (1 <= n)%N -> (n <= 256)%N -> in_signed n z = true -> - 2 ^ 255 <= z < 2 ^ 255.
+Proof.
+  intros H1 H2 H. unfold in_signed in H.
+  assert (2 ^ (Z.of_N n - 1) <= 2 ^ 255) by (apply Z.pow_le_mono_r; lia).
+  lia.
+Qed.
+
+Lemma pad_arith (n : nat) :
+  ((n + 31) / 32 * 32 - n)%nat = Z.to_nat ((32 - Z.of_nat n mod 32) mod 32).
+Proof. lia. Qed.
+
+Lemma pack_bytes_spec b : pack_bytes_slice b = spec_bytes b.
+Proof.
+  unfold pack_bytes_slice, spec_bytes, right_pad.
+  rewrite pack_num_spec by apply zlen_nonneg. do 3 f_equal. unfold zlen. apply pad_arith.
+Qed.
+
+Lemma elems_eq (f : val -> option (list N)) (g : val -> res (list N)) dyn vs :
+  (forall v b, f v = Some b -> g v = Ok b) ->
+  forall ps, enc_elems f dyn vs = Some ps -> pack_elems g dyn vs = Ok ps.
+Proof.
+  intros Hfg. induction vs as [|v r IH]; intros ps H; cbn [enc_elems pack_elems] in *.
+  - now injection H as <-.
+  - destruct (f v) eqn:Ef; [|discriminate]. destruct (enc_elems f dyn r) eqn:Er; [|discriminate].
+    injection H as <-. rewrite (Hfg _ _ Ef). cbn [bind]. now rewrite (IH _ eq_refl).
+Qed.
+
+Lemma elems_parts f dyn (vs : list val) (ps : list part) :
+  pack_elems f dyn vs = Ok ps ->
+  Forall (fun p : part => fst p = dyn) ps /\ zlen ps = zlen vs.
+Proof.
+  intros H. apply pack_elems_inv in H. split.
+  - induction H as [|v p vs' ps' [Hf _] _ IH]; constructor; auto.
+  - unfold zlen. f_equal. symmetry. eapply Forall2_len; eauto.
+Qed.
+
+(* the initial offset of type.go:288-292 is the head length *)
+Lemma array_heads e (vs : list val) (ps : list part) :
+  Forall (fun p : part => fst p = dynamic e) ps -> zlen ps = zlen vs ->
+  heads_acc ps (if dynamic e then type_size e * zlen vs else 0) = heads_acc ps (head_len ps).
+Proof.
+  intros Hf Hl. destruct (dynamic e) eqn:Hd.
+  - f_equal. rewrite dynamic_type_size by assumption.
+    rewrite (head_len_uniform ps 32); [lia|].
+    eapply Forall_impl; [|exact Hf]. intros [d b] Hp. cbn in *. now subst d.
+  - apply heads_acc_static. exact Hf.
+Qed.
+
+Definition pack_eq_spec_P (t : ty) : Prop :=
+  forall v b, ty_valid t = true -> enc t v = Some b -> pack t v = Ok b.
+
+Lemma fields_eq ts : Forall pack_eq_spec_P ts -> forall vs ps,
+  forallb ty_valid ts = true ->
+  enc_fields enc ts vs = Some ps -> pack_fields pack ts vs = Ok ps.
+Proof.
+  induction 1 as [|t r Ht _ IH]; intros vs ps Hv H.
+  - destruct vs; cbn in *; [|discriminate]. now injection H as <-.
+  - destruct vs as [|v vs]; cbn [enc_fields pack_fields] in *; [discriminate|].
+    cbn [forallb] in Hv. apply andb_true_iff in Hv as [Hv1 Hv2].
+    destruct (enc t v) eqn:Ef; [|discriminate].
+    destruct (enc_fields enc r vs) eqn:Er; [|discriminate].
+    injection H as <-. rewrite (Ht _ _ Hv1 Ef). cbn [bind]. now rewrite (IH _ _ Hv2 Er).
+Qed.
+
+Lemma forallb_valid_newtype ts : forallb ty_valid ts = true -> forallb ty_newtype ts = true.
+Proof.
+  rewrite !forallb_forall. intros H x Hx. apply ty_valid_newtype. auto.
+Qed.
+
+Lemma pack_tuple_eq ts vs ps :
+  forallb ty_newtype ts = true ->
+  pack_fields pack ts vs = Ok ps ->
+  pack_loop ps (zsum (map type_size ts)) [] [] = enc_tuple ps.
+Proof.
+  intros Hnt H. rewrite enc_tuple_eq. f_equal. symmetry.
+  eapply fields_head_len; eauto. apply Forall_forall. intros t _. apply pack_static_len.
+Qed.
+
+Lemma pack_eq_spec t : pack_eq_spec_P t.
+Proof.
+  induction t using ty_ind'; intros v b Hv He; destruct v; cbn [enc] in He; try discriminate;
+    cbn [pack pack_element]; cbn [ty_valid] in Hv.
+  - destruct (in_unsigned n z) eqn:E; [|discriminate]. injection He as <-.
+    unfold in_unsigned in E.
+    replace (z <? 0) with false by lia.
+    rewrite pack_num_spec by lia. now destruct (native_width n).
+  - destruct (in_signed n z) eqn:E; [|discriminate]. injection He as <-.
+    rewrite pack_num_signed by (apply (in_signed_bound n); [lia|lia|exact E]).
+    now destruct (native_width n).
+  - injection He as <-. rewrite pack_num_spec by (destruct b0; lia). reflexivity.
+  - destruct (Nat.eqb (length bs) 20) eqn:E; [|discriminate]. injection He as <-.
+    apply Nat.eqb_eq in E. unfold left_pad. now rewrite E.
+  - destruct (N.of_nat (length bs) =? n)%N eqn:E; [|discriminate]. now injection He as <-.
+  - injection He as <-. now rewrite pack_bytes_spec.
+  - injection He as <-. now rewrite pack_bytes_spec.
+  - (* T[] *)
+    destruct (enc_elems (enc t) (dynamic t) vs) as [ps|] eqn:E; [|discriminate].
+    injection He as <-.
+    assert (Hp : pack_elems (pack t) (dynamic t) vs = Ok ps).
+    { eapply elems_eq; [|exact E]. intros v b. now apply IHt. }
+    rewrite Hp. cbn [bind]. destruct (elems_parts _ _ _ _ Hp) as [Hf Hl].
+    rewrite enc_tuple_eq, !pack_loop_eq. cbn [app].
+    rewrite array_heads by assumption.
+    now rewrite pack_num_spec by apply zlen_nonneg.
+  - (* T[k] *)
+    destruct (Nat.eqb (length vs) k); [|discriminate].
+    destruct (enc_elems (enc t) (dynamic t) vs) as [ps|] eqn:E; [|discriminate].
+    injection He as <-.
+    assert (Hp : pack_elems (pack t) (dynamic t) vs = Ok ps).
+    { eapply elems_eq; [|exact E]. intros v b. now apply IHt. }
+    rewrite Hp. cbn [bind]. destruct (elems_parts _ _ _ _ Hp) as [Hf Hl].
+    rewrite enc_tuple_eq, !pack_loop_eq. cbn [app].
+    now rewrite array_heads by assumption.
+  - (* tuple *)
+    destruct (enc_fields enc ts vs) as [ps|] eqn:E; [|discriminate].
+    injection He as <-.
+    assert (Hp : pack_fields pack ts vs = Ok ps) by (eapply fields_eq; eauto).
+    rewrite Hp. cbn [bind]. f_equal. apply pack_tuple_eq with (vs := vs); [|exact Hp].
+    now apply forallb_valid_newtype.
+Qed.
+
+Lemma pack_args_eq_spec ts vs b :
+  forallb ty_valid ts = true -> enc_args ts vs = Some b -> pack_args ts vs = Ok b.
+Proof.
+  intros Hv He. exact (pack_eq_spec (TTuple ts) (VList vs) b Hv He).
+Qed.
+
+(* the spec encoder is defined on every ABI-typed value *)
+Definition enc_total_P (t : ty) : Prop :=
+  forall v, wf_value t v = true -> exists b, enc t v = Some b.
+
+Lemma enc_total t : enc_total_P t.
+Proof.
+  induction t using ty_ind'; intros v Hw; destruct v; cbn [wf_value] in Hw; try discriminate;
+    cbn [enc].
+  - rewrite Hw. eauto.
+  - rewrite Hw. eauto.
+  - eauto.
+  - apply andb_true_iff in Hw as [-> _]. eauto.
+  - apply andb_true_iff in Hw as [-> _]. eauto.
+  - eauto.
+  - eauto.
+  - assert (exists ps, enc_elems (enc t) (dynamic t) vs = Some ps) as [ps ->]; [|eauto].
+    induction vs as [|v r IH]; cbn [enc_elems forallb] in *; [eauto|].
+    apply andb_true_iff in Hw as [H1 H2]. destruct (IHt _ H1) as [b ->].
+    destruct (IH H2) as [ps ->]. eauto.
+  - apply andb_true_iff in Hw as [-> Hw].
+    assert (exists ps, enc_elems (enc t) (dynamic t) vs = Some ps) as [ps ->]; [|eauto].
+    clear k. induction vs as [|v r IH]; cbn [enc_elems forallb] in *; [eauto|].
+    apply andb_true_iff in Hw as [H1 H2]. destruct (IHt _ H1) as [b ->].
+    destruct (IH H2) as [ps ->]. eauto.
+  - assert (exists ps, enc_fields enc ts vs = Some ps) as [ps ->]; [|eauto].
+    revert vs Hw. induction H as [|t r Ht _ IH]; intros [|v vs] Hw; cbn [forall2b enc_fields] in *;
+      try discriminate; [eauto|].
+    apply andb_true_iff in Hw as [H1 H2]. destruct (Ht _ H1) as [b ->].
+    destruct (IH _ H2) as [ps ->]. eauto.
+Qed.
+
+(* ------------------------------------------------------------------ *)
+(* unpack never reaches a Go run-time panic                            *)
+
+Lemma bind_np {A B} (r : res A) (f : A -> res B) :
+  r <> Panic -> (forall a, r = Ok a -> f a <> Panic) -> bind r f <> Panic.
+Proof. destruct r; cbn; intros H1 H2; auto; discriminate. Qed.
+
+Lemma gslice_np l lo hi : 0 <= lo -> lo <= hi -> hi <= zlen l -> gslice l lo hi <> Panic.
+Proof.
+  intros H1 H2 H3. unfold gslice. destruct (slice_some l lo hi H1 H2 H3) as (s & -> & _). discriminate.
+Qed.
+
+Lemma gslice_ok l lo hi s :
+  gslice l lo hi = Ok s -> zlen s = hi - lo /\ 0 <= lo /\ lo <= hi /\ hi <= zlen l.
+Proof.
+  unfold gslice. destruct (slice l lo hi) eqn:E; [|discriminate]. intros [= <-].
+  split; [eapply slice_length; eauto|].
+  unfold slice in E. destruct ((0 <=? lo) && (lo <=? hi) && (hi <=? zlen l)) eqn:C; [lia|discriminate].
+Qed.
+
+Lemma read_integer_cases u n b :
+  (exists z, read_integer u n b = Ok (VInt z)) \/ read_integer u n b = Err EInt.
+Proof.
+  unfold read_integer.
+  repeat match goal with
+         | |- context [match ?x with _ => _ end] => destruct x
+         end; eauto.
+Qed.
+
+Lemma read_integer_np u n b : read_integer u n b <> Panic.
+Proof. destruct (read_integer_cases u n b) as [[z ->]| ->]; discriminate. Qed.
+
+Lemma nth_error_some_len {A} (l : list A) n : (n < length l)%nat -> exists x, nth_error l n = Some x.
+Proof.
+  intros H. destruct (nth_error l n) eqn:E; [eauto|]. apply nth_error_None in E. lia.
+Qed.
+
+Lemma read_bool_np w : zlen w = 32 -> read_bool w <> Panic.
+Proof.
+  intros Hl. unfold read_bool. apply bind_np; [apply gslice_np; lia|]. intros hi _.
+  destruct (existsb _ hi); [discriminate|].
+  destruct (nth_error_some_len w 31) as [x ->]; [unfold zlen in Hl; lia|].
+  destruct x as [|[p|p|]]; discriminate.
+Qed.
+
+Lemma read_fixed_bytes_np n w : zlen w = 32 -> (n <= 32)%N -> read_fixed_bytes n w <> Panic.
+Proof.
+  intros Hl Hn. unfold read_fixed_bytes. apply bind_np; [apply gslice_np; lia|]. discriminate.
+Qed.
+
+Lemma bytes_to_address_np w : zlen w = 32 -> bytes_to_address w <> Panic.
+Proof.
+  intros Hl. unfold bytes_to_address. apply bind_np; [apply gslice_np; lia|]. discriminate.
+Qed.
+
+Ltac dif :=
+  match goal with |- context [if ?c then _ else _] => destruct c eqn:? end.
+Ltac difh H :=
+  match type of H with context [if ?c then _ else _] => destruct c eqn:? end.
+
+Lemma lpp_np index output :
+  0 <= index -> index + 32 <= zlen output -> length_prefix_points_to index output <> Panic.
+Proof.
+  intros H1 H2. unfold length_prefix_points_to.
+  apply bind_np; [apply gslice_np; lia|]. intros w Hw.
+  dif; [discriminate|]. dif; [discriminate|].
+  apply bind_np; [apply gslice_np; lia|]. intros lw Hlw.
+  dif; [discriminate|]. dif; discriminate.
+Qed.
+
+Lemma lpp_ok index output b l :
+  length_prefix_points_to index output = Ok (b, l) ->
+  32 <= b /\ 0 <= l /\ b + l <= zlen output.
+Proof.
+  unfold length_prefix_points_to. intros H.
+  apply bind_ok in H as (w & Hw & H).
+  difh H; [discriminate|]. difh H; [discriminate|].
+  apply bind_ok in H as (lw & Hlw & H).
+  difh H; [discriminate|]. difh H; [discriminate|].
+  injection H as <- <-. lia.
+Qed.
+
+Lemma tpt_np index output :
+  0 <= index -> index + 32 <= zlen output -> tuple_points_to index output <> Panic.
+Proof.
+  intros H1 H2. unfold tuple_points_to.
+  apply bind_np; [apply gslice_np; lia|]. intros w Hw.
+  dif; [discriminate|]. dif; discriminate.
+Qed.
+
+Lemma tpt_ok index output b :
+  tuple_points_to index output = Ok b -> 0 <= b <= zlen output.
+Proof.
+  unfold tuple_points_to. intros H. apply bind_ok in H as (w & Hw & H).
+  difh H; [discriminate|]. difh H; [discriminate|].
+  injection H as <-. lia.
+Qed.
+
+Lemma for_each_loop_np dec1 es n : forall i,
+  (forall i, 0 <= i -> dec1 i <> Panic) -> 0 <= es -> 0 <= i ->
+  for_each_loop dec1 i es n <> Panic.
+Proof.
+  induction n as [|n IH]; intros i Hd He Hi; cbn [for_each_loop]; [discriminate|].
+  apply bind_np; [auto|]. intros v _. apply bind_np; [apply IH; auto; lia|]. discriminate.
+Qed.
+
+Lemma for_each_unpack_np dec1 es output start size :
+  (forall i, 0 <= i -> dec1 i <> Panic) -> 0 <= es -> 0 <= start ->
+  for_each_unpack dec1 es output start size <> Panic.
+Proof.
+  intros Hd He Hs. unfold for_each_unpack.
+  dif; [discriminate|]. dif; [discriminate|].
+  apply bind_np; [now apply for_each_loop_np|]. discriminate.
+Qed.
+
+Lemma zsum_nonneg l : Forall (fun z => 0 <= z) l -> 0 <= zsum l.
+Proof. induction 1; cbn; [lia|]. fold (zsum l). lia. Qed.
+
+Lemma type_size_nonneg t : 0 <= type_size t.
+Proof.
+  induction t using ty_ind'; cbn [type_size]; try lia.
+  - destruct (negb (dynamic t)); [|lia]. destruct t; lia.
+  - destruct (negb (existsb dynamic ts)); [|lia]. apply zsum_nonneg.
+    apply Forall_map. exact H.
+Qed.
+
+Lemma unpack_fields_np dec ts : forall index virt,
+  Forall (fun t => forall i, 0 <= i -> dec t i <> Panic) ts ->
+  0 <= index + virt -> unpack_fields dec ts index virt <> Panic.
+Proof.
+  induction ts as [|t r IH]; intros index virt Hd Hi; cbn [unpack_fields]; [discriminate|].
+  inversion Hd as [|? ? Ht Hr]; subst.
+  apply bind_np; [apply Ht; lia|]. intros v _.
+  apply bind_np; [|discriminate].
+  apply IH; [exact Hr|].
+  pose proof (type_size_nonneg t) as Hs.
+  assert (0 <= type_size t / 32) by (apply Z.div_pos; lia).
+  destruct t; try lia; destruct (negb _); lia.
+Qed.
+
+Definition no_panic_P (t : ty) : Prop :=
+  forall index output, ty_newtype t = true -> 0 <= index -> to_go_type t index output <> Panic.
+
+Ltac np_word :=
+  apply bind_np; [apply gslice_np; lia|]; intros w Hw; apply gslice_ok in Hw as (Hwl & _).
+
+Lemma to_go_type_np t : no_panic_P t.
+Proof.
+  induction t using ty_ind'; intros index output Hnt Hi; cbn [to_go_type];
+    destruct (index + 32 >? zlen output) eqn:Hlen; try discriminate; cbn [ty_newtype] in Hnt.
+  - np_word. apply read_integer_np.
+  - np_word. apply read_integer_np.
+  - np_word. apply read_bool_np. lia.
+  - np_word. apply bytes_to_address_np. lia.
+  - np_word. apply read_fixed_bytes_np; lia.
+  - apply bind_np; [apply lpp_np; lia|]. intros [b l] Hbl. apply lpp_ok in Hbl.
+    apply bind_np; [apply gslice_np; lia|]. discriminate.
+  - apply bind_np; [apply lpp_np; lia|]. intros [b l] Hbl. apply lpp_ok in Hbl.
+    apply bind_np; [apply gslice_np; lia|]. discriminate.
+  - (* T[] *)
+    apply bind_np; [apply lpp_np; lia|]. intros [b l] Hbl. apply lpp_ok in Hbl.
+    apply bind_np; [apply gslice_np; lia|]. intros out' _.
+    apply for_each_unpack_np; [|apply type_size_nonneg|lia]. intros i Hi'. now apply IHt.
+  - (* T[k] *)
+    np_word. destruct (dynamic t).
+    + apply bind_np; [apply gslice_np; lia|]. intros w8 _.
+      dif; [discriminate|].
+      apply bind_np; [apply gslice_np; lia|]. intros out' _.
+      apply for_each_unpack_np; [|apply type_size_nonneg|lia]. intros i Hi'. now apply IHt.
+    + apply bind_np; [apply gslice_np; lia|]. intros out' _.
+      apply for_each_unpack_np; [|apply type_size_nonneg|lia]. intros i Hi'. now apply IHt.
+  - (* tuple *)
+    assert (Hf : forall out', Forall (fun t => forall i, 0 <= i -> to_go_type t i out' <> Panic) ts).
+    { intros out'. rewrite forallb_forall in Hnt. rewrite Forall_forall in *.
+      intros t Ht i Hi'. apply H; auto. }
+    np_word. destruct (existsb dynamic ts).
+    + apply bind_np; [apply tpt_np; lia|]. intros b Hb. apply tpt_ok in Hb.
+      apply bind_np; [apply gslice_np; lia|]. intros out' _.
+      apply bind_np; [|discriminate]. apply unpack_fields_np; [apply Hf|lia].
+    + apply bind_np; [apply gslice_np; lia|]. intros out' _.
+      apply bind_np; [|discriminate]. apply unpack_fields_np; [apply Hf|lia].
+Qed.
+
+Lemma unpack_args_np ts data :
+  forallb ty_newtype ts = true -> unpack_args ts data <> Panic.
+Proof.
+  intros Hnt. unfold unpack_args, unpack_values.
+  destruct data as [|x data]; [destruct ts; discriminate|].
+  apply unpack_fields_np; [|lia].
+  rewrite forallb_forall in Hnt. apply Forall_forall. intros t Ht i Hi.
+  apply to_go_type_np; auto.
 Qed.
